@@ -95,18 +95,8 @@ class Case:
         self.used = used
         self.a = a
         self.mods = [a]
+        self.sib_oids = []
         self.place()
-        # object identifiers are unique (X.680): two loaded modules never carry the same one, and an
-        # import by identifier names exactly one of them (the generator draws them from a small pool)
-        seen = []
-        for k, m in enumerate(self.mods):
-            if m["oid"] is not None and m["oid"] in seen:
-                old = m["oid"]
-                m["oid"] = list(old) + [("u", 7000 + k)]
-                for mm in self.mods:
-                    mm["imports"] = [(w, f, (m["oid"] if (o == old and f == m["name"]) else o)) for w, f, o in mm["imports"]]
-            if m["oid"] is not None:
-                seen.append(m["oid"])
 
     def vr_item(self, nm):
         lit = self.values[nm]
@@ -128,7 +118,14 @@ class Case:
         g = self.g
         m = {"name": g.fresh("module"), "oid": None, "imports": [], "items": []}
         if with_oid:
-            m["oid"] = g.oid() or [("u", 1), ("u", self.r.range(0, 999))]
+            # object identifiers are unique (X.680): no two modules of a case carry the same one (the
+            # generator draws them from a small pool), so an import by identifier names exactly one
+            taken = [x["oid"] for x in self.mods] + self.sib_oids
+            oid = g.oid() or [("u", 1), ("u", self.r.range(0, 999))]
+            while oid in taken:
+                oid = list(oid) + [("u", 7000 + len(taken))]
+            self.sib_oids.append(oid)
+            m["oid"] = oid
         if self.r.chance(1, 2):
             keep, g.p_ref = g.p_ref, 10 ** 9      # the sibling itself uses no references
             m["items"].append(("def", g.fresh("type"), None, g.leaf()))
